@@ -94,13 +94,27 @@ def c19_py_computed(prop="C19", tier="quick", seed=0, **kw):
             jobs.append(_job("h_c19_int", "c19:%s.%s" % (rec, f), b, rec=rec, field=f))
         for f in ("fsum", "fquot", "fnest", "pw", "sz") + (("mixed",) if rec != "RecI64" else ()):
             jobs.append(_job("h_c19_float", "c19:%s.%s" % (rec, f), b, rec=rec, field=f))
+    # all 2 x 25 nestings of two binary operators + 15 unary-minus placements (harness/py/c19shapes.py)
+    from harness.py import c19shapes as SH
+    srecs = ["Sh3I32", "Sh3U8", SH.FLOAT_RECORD] if quick else ["Sh3I32", "Sh3I64", "Sh3U8", "Sh3I16", SH.FLOAT_RECORD]
+    for rec in srecs:
+        for f, (text, tree) in SH.shapes().items():
+            if (rec, f) in HG.SH_EXCLUDED or not SH.valid_for(rec, tree):
+                continue
+            if quick and rec == SH.FLOAT_RECORD and f.startswith("l_") and f != "l_pow_pow":
+                continue     # left-nested float shapes are emitted without parentheses by construction of Python's grammar: thorough tier
+            jobs.append(_job("h_c19_shape", "c19:%s.%s" % (rec, f), b, rec=rec, field=f))
     for j in jobs:
         if "xcheck_every" in j["limits"]:
             j["limits"]["xcheck_every"] = 2     # few queries per job here: cross-check every second one
     expected = ["computed.no-exception-for-in-range-operands", "computed.int-division==truncated-quotient", "computed.int-expression==mathematical-value",
-                "computed.float-expression==ieee-value", "computed.size==length"]
+                "computed.float-expression==ieee-value", "computed.size==length", "computed.nested-expression==value-of-the-expression-tree"]
     bounds = {"records": recs, "integer_operands": "symbolic over the full range of the field type (int64 products: |a|,|b| <= 2^38)",
               "floats": "concrete pool %s x itself" % HG.FPOOL, "pow/mixed integer operands": "concrete pool %s" % HG.IPOOL,
+              "nested shapes": "(a op1 b) op2 c and a op2 (b op1 c) for all op1, op2 in {+,-,*,/,**}, unary minus on either operand / on the result; records %s; "
+                               "power-free integer shapes: a, b, c symbolic over the field type (|operand| <= 2^38 / 2^24 with one / two products), divisions restricted to non-zero divisors and to "
+                               "non-negative dividends (where // and C++ / agree); power and floating-point shapes: operands from pools %s / %s / %s decided by forking" % (
+                                   srecs, HG.SH_IPOOL, HG.SH_UPOOL, HG.SH_FPOOL),
               "in-range": "exact value and every parenthesised intermediate inside the static result type given by the generated return annotation; divisors non-zero"}
     return _run("c19_py_computed", prop, jobs, bounds, expected, ["c19computed"],
                 extra_assume=["C19 oracle: mathematical value of the model expression; integer division truncates toward zero (C++ semantics); float operators are IEEE double operations"])
